@@ -150,25 +150,44 @@ def _(c):
 # ---------------------------------------------------------------------------
 # ezsp_callback_handler: unpacking by role against the live rx schemas of every version
 # ---------------------------------------------------------------------------
-# role -> schema field name, for the two field orders (written from the statement / UG100, not from the code)
-INCOMING_ROLES = {
-    "message_type": ("type", "message_type"),
-    "aps_frame": ("apsFrame", "aps_frame"),
-    "lqi": ("lastHopLqi", "lqi"),
-    "rssi": ("lastHopRssi", "rssi"),
-    "sender": ("sender", "nwk"),
-    "binding_index": ("bindingIndex", "binding_index"),
-    "address_index": ("addressIndex", "address_index"),
-    "message": ("messageContents", "message"),
+# Wire layout of the two message callbacks, by role, in wire order, for the two field orders -- written from the EZSP
+# reference (UG100; v14: the sl_zigbee_* order), not from the code.  A position is (role, wire kind); the names the
+# command tables give to the fields do not matter, their position and wire type do: the NCP fixes both.
+U8, S8, U16, U32 = ("int", 1, False), ("int", 1, True), ("int", 2, False), ("int", 4, False)
+APS, EUI, LVB = ("struct", "EmberApsFrame"), ("eui64",), ("lvbytes", 1)
+INCOMING_LAYOUT = {
+    "legacy": [("message_type", U8), ("aps_frame", APS), ("lqi", U8), ("rssi", S8), ("sender", U16), ("binding_index", U8),
+               ("address_index", U8), ("message", LVB)],
+    "v14": [("message_type", U8), ("aps_frame", APS), ("sender", U16), ("sender_eui64", EUI), ("binding_index", U8),
+            ("address_index", U8), ("lqi", U8), ("rssi", S8), ("timestamp", U32), ("message", LVB)],
 }
-SENT_ROLES = {
-    "message_type": ("type", "message_type"),
-    "destination": ("indexOrDestination", "nwk"),
-    "aps_frame": ("apsFrame", "aps_frame"),
-    "message_tag": ("messageTag", "message_tag"),
-    "status": ("status", "status"),
-    "message": ("messageContents", "message"),
+SENT_LAYOUT = {
+    "legacy": [("message_type", U8), ("destination", U16), ("aps_frame", APS), ("message_tag", U8), ("status", U8), ("message", LVB)],
+    "v14": [("status", U32), ("message_type", U8), ("destination", U16), ("aps_frame", APS), ("message_tag", U16), ("message", LVB)],
 }
+INCOMING_ROLES = ("message_type", "aps_frame", "lqi", "rssi", "sender", "binding_index", "address_index", "message")
+SENT_ROLES = ("message_type", "destination", "aps_frame", "message_tag", "status", "message")
+LAYOUTS = {"incomingMessageHandler": INCOMING_LAYOUT, "messageSentHandler": SENT_LAYOUT}
+
+
+def family_of(version):
+    return "v14" if version >= 14 else "legacy"
+
+
+def wire_kind(ty):
+    import zigpy.types as zt
+
+    if isinstance(ty, type) and issubclass(ty, zt.EUI64):
+        return ("eui64",)
+    if isinstance(ty, type) and issubclass(ty, int) and getattr(ty, "_size", None):
+        return ("int", ty._size, bool(getattr(ty, "_signed", False)))
+    if isinstance(ty, type) and issubclass(ty, zt.LVBytes):
+        return ("lvbytes", getattr(ty, "_prefix_length", 1))
+    if isinstance(ty, type) and issubclass(ty, zt.Struct):
+        return ("struct", ty.__name__)
+    return ("other", getattr(ty, "__name__", str(ty)))
+
+
 TCJOIN_ORDER = ("nwk", "ieee", "device_update_status", "decision", "parent_nwk")
 
 
@@ -186,12 +205,30 @@ class _SchemaArgsT:
 
 
 def role_value(version, frame, roles, role, args):
-    """the value at the live schema position of the field that plays `role` in this version's table"""
-    cls = ezsp.EZSP._BY_VERSION[version]
-    names = list(cls.COMMANDS[frame][2].keys())
-    cands = [n for n in dict.fromkeys(roles[role]) if n in names]
-    assert len(cands) == 1, (version, frame, role, names)
-    return args[names.index(cands[0])]
+    """the value at the wire position of `role` in this version's field order"""
+    layout = LAYOUTS[frame][family_of(version)]
+    return args[[r for r, _k in layout].index(role)]
+
+
+def _callback_wire_layouts(tier):
+    """every version's rx schema of the two message callbacks decodes the wire layout above: same number of fields,
+    the same wire kind at every position (a signed RSSI byte decoded as unsigned, or two fields of different kinds
+    swapped, is a different decoding of the same bytes)"""
+    out = []
+    for v, cls in sorted(ezsp.EZSP._BY_VERSION.items()):
+        for frame, layouts in LAYOUTS.items():
+            rx = cls.COMMANDS[frame][2]
+            live = [wire_kind(ty) for ty in rx.values()]
+            want = [k for _r, k in layouts[family_of(v)]]
+            ok = live == want
+            out.append({"name": f"{cls.__module__}.{cls.__qualname__}::table.callback_wire_layout[{frame}]",
+                        "verdict": "proved" if ok else "refuted", "backend": "live-table", "t": 0.0,
+                        "detail": f"{len(live)} fields against the {family_of(v)} layout",
+                        "witness": {"version": v, "frame": frame, "live": [list(rx.keys()), live], "specified": layouts[family_of(v)]} if not ok else None})
+    return out
+
+
+_index.extra("C13")(_callback_wire_layouts)
 
 
 def _cb_cases():
